@@ -69,7 +69,7 @@ theorem patchPayload_pinned (t : Target) (enc : JVal → String) (expected live 
 
 theorem createRequest_spec (t : Target) (c : ApiClass) (defNs : String) (hv : c.ver = t.ver) (hk : c.kind = t.kind)
     {p : JVal} {req : Request} (hp : Pinned t p) (h : createRequest c defNs p t.ns = some req) :
-    req.method = .post ∧ req.plural = c.plural ∧ req.name = none ∧
+    req.method = .post ∧ req.plural = c.plural ∧ req.version = c.ver ∧ req.name = none ∧
     (∃ b, req.body = some b ∧ Pinned t b ∧
       req.nsArg = if c.namespaced then some ((metaKey "namespace" b).getD (.str defNs)) else none) := by
   unfold createRequest at h
@@ -79,7 +79,7 @@ theorem createRequest_spec (t : Target) (c : ApiClass) (defNs : String) (hv : c.
     simp [hn] at h
     subst h
     have hpo := pinned_krRaw t c hv hk o (pinned_krNew t hn hp)
-    exact ⟨rfl, rfl, rfl, _, rfl, hpo, by simp [krNamespace]⟩
+    exact ⟨rfl, rfl, rfl, rfl, _, rfl, hpo, by simp [krNamespace]⟩
 
 /-! ## what a reconcile can send -/
 
